@@ -62,7 +62,7 @@ class Ctx:
 # ----------------------------------------------------------------------------
 # Go drivers
 
-def build_driver(ctx, pkg, sources, tags=("verif",), race=False, name=None, helper=True):
+def build_driver(ctx, pkg, sources, tags=("verif",), race=False, name=None, helper=True, extra=None):
     """Compile the in-package driver(s) `sources` (paths under harness/) into a
     test binary of /repo/<pkg> using a build overlay: /repo is not touched."""
     name = name or pkg.replace("/", "_")
@@ -81,6 +81,8 @@ def build_driver(ctx, pkg, sources, tags=("verif",), race=False, name=None, help
         hp = os.path.join(d, name + "_vhelp_test.go")
         open(hp, "w").write(h)
         replace[os.path.join(REPO, pkg, "zz_verif_vhelp_test.go")] = hp
+    for dest, src in (extra or {}).items():      # additional overlay files (e.g. an export shim inside an internal package)
+        replace[os.path.join(REPO, dest)] = os.path.join(HARNESS, src)
     ov = os.path.join(d, name + "_overlay.json")
     json.dump({"Replace": replace}, open(ov, "w"))
     binp = os.path.join(d, name + ".test")
